@@ -226,6 +226,9 @@ static void explore_harness(long hi, void *arg) {
         for (int t = 0; t < NT; t++) if (strcmp(LOG[t], REFLOG[t])) same = 0;
         if (!same) { char cfg[96]; snprintf(cfg, sizeof cfg, "harness=%s", h->name); mc_violation("noreplay-determinism", "nondeterministic-replay(harness-error)", "", cfg, ch, 0, "the same schedule gave a different trace"); return; }
     }
+    if (h->name[0] == 'W') {      /* too long for interleaving exploration: decided by the write-set oracle above (and the free-running TSan pass) */
+        char msg[160]; snprintf(msg, sizeof msg, "points per thread %ld/%ld/%ld: write sets of the threads are disjoint, sequential run deterministic; interleavings not enumerated", n_pts[0], n_pts[1], n_pts[2]);
+        mc_sample("harness", h->name, "", 0, msg); MC_ADD(C_EXEC, 2); MC_ADD(C_EVAL, 2); NREG = saved_nreg; return; }
     VISSZ = 1 << 23; VIS = calloc((size_t)VISSZ, sizeof *VIS); NVIS = 0; NSTACK = 0;
     DIG_VARIED = 0;
     long execs = 0, trans = 0; int maxsw = 0;
@@ -328,7 +331,7 @@ int main(int argc, char **argv) {
     C_EXEC = mc_counter("schedules_executed"); C_STATES = mc_counter("states"); C_TRANS = mc_counter("transitions"); C_MAXSW = mc_counter("max_context_switches_in_one_execution");
     C_SHAREDW = mc_counter("harnesses_where_shared_memory_changed"); C_POINTS = mc_counter("scheduling_points_executed"); C_OUTCOMES = mc_counter("extra_distinct_outcome_vectors");
     if (mc_replay) return do_replay();
-    int nh = mc_thorough ? NH : 17;
+    int nh = mc_thorough ? NH : 18;
     mc_parallel("all interleavings at basic-block granularity, one harness per shard", nh, explore_harness, NULL);
     return mc_finish();
 }
